@@ -53,7 +53,23 @@ type Mini struct {
 	Index func(m *Mini, x *ast.IndexExpr) (MV, bool)
 	// Range gives the (key, value) of the single symbolic iteration of a range loop.
 	Range func(m *Mini, rs *ast.RangeStmt) (k, v MV, ok bool)
-	steps int
+	// Unroll (optional, consulted before Range) unrolls a range loop over a finite abstract sequence:
+	// n iterations, item(i) yields the key and value of iteration i (and lets the rule note which
+	// abstract element is current). break/continue/return have their Go meaning; after the last
+	// iteration control continues behind the loop.
+	// eval folds an expression in the loop's environment (opaque symbol when outside the abstraction).
+	Unroll func(m *Mini, rs *ast.RangeStmt, eval func(ast.Expr) MV) (n int, item func(i int) (k, v MV), ok bool)
+	// Store (optional) gives meaning to an assignment whose target is not an identifier (x.f = v,
+	// x[i] = v); i is the index of the target in s.Lhs, v the folded value (nil when the right-hand
+	// side is a multi-value call), eval folds further expressions. Unhandled stores stay no-ops.
+	Store func(m *Mini, s *ast.AssignStmt, i int, v MV, eval func(ast.Expr) MV) bool
+	// Counters: x++ / x-- / x += c on an integer variable whose value is known are folded
+	// (default: counters are ignored).
+	Counters bool
+	// IndexV (optional, consulted before Index) gives meaning to x[i] from the folded base and index
+	// (either may be an opaque symbol when it is outside the abstraction).
+	IndexV func(m *Mini, x *ast.IndexExpr, base, idx MV) (MV, bool)
+	steps  int
 	depth int
 }
 
@@ -228,6 +244,23 @@ func (m *Mini) stmt(s ast.Stmt, env *menv) (miniCtl, []MV) {
 		m.assign(s, env)
 		return ctlNormal, nil
 	case *ast.IncDecStmt:
+		if m.Counters {
+			if id, ok := ast.Unparen(s.X).(*ast.Ident); ok {
+				if o := m.Info.Uses[id]; o != nil {
+					if cur, ok := env.get(o); ok {
+						if iv, ok := MInt(cur); ok {
+							if s.Tok == token.INC {
+								env.set(o, constant.MakeInt64(iv+1))
+							} else {
+								env.set(o, constant.MakeInt64(iv-1))
+							}
+							return ctlNormal, nil
+						}
+					}
+				}
+			}
+			m.fail(s, "counter outside the abstraction")
+		}
 		return ctlNormal, nil // counters are outside the abstraction
 	case *ast.IfStmt:
 		scope := &menv{vars: map[types.Object]MV{}, parent: env}
@@ -344,6 +377,40 @@ func (m *Mini) stmt(s ast.Stmt, env *menv) (miniCtl, []MV) {
 		}
 		return ctl, r
 	case *ast.RangeStmt:
+		if m.Unroll != nil {
+			if n, item, ok := m.Unroll(m, s, func(x ast.Expr) MV { return m.tryExpr(x, env) }); ok {
+				for i := 0; i < n; i++ {
+					k, v := item(i)
+					scope := &menv{vars: map[types.Object]MV{}, parent: env}
+					for j, e := range []ast.Expr{s.Key, s.Value} {
+						id, isID := e.(*ast.Ident)
+						if e == nil || (isID && id.Name == "_") {
+							continue
+						}
+						if !isID {
+							m.fail(s, "range loop assigns to a non-identifier")
+						}
+						val := k
+						if j == 1 {
+							val = v
+						}
+						if o := m.Info.Defs[id]; o != nil {
+							scope.def(o, val)
+						} else if o := m.Info.Uses[id]; o != nil {
+							env.set(o, val)
+						}
+					}
+					ctl, r := m.block(s.Body.List, scope)
+					switch ctl {
+					case ctlBreak:
+						return ctlNormal, nil
+					case ctlReturn, ctlPanic:
+						return ctl, r
+					}
+				}
+				return ctlNormal, nil
+			}
+		}
 		if m.Range == nil {
 			m.fail(s, "range loop outside the abstraction")
 		}
@@ -465,6 +532,14 @@ func (m *Mini) assign(s *ast.AssignStmt, env *menv) {
 		id, ok := ast.Unparen(l).(*ast.Ident)
 		if !ok {
 			// stores into fields/elements are outside the abstraction (e.g. s.lastError = err)
+			// unless the rule gives them meaning
+			if m.Store != nil {
+				var v MV
+				if i < len(vals) {
+					v = vals[i]
+				}
+				m.Store(m, s, i, v, func(x ast.Expr) MV { return m.tryExpr(x, env) })
+			}
 			continue
 		}
 		if id.Name == "_" {
@@ -659,6 +734,11 @@ func (m *Mini) expr(x ast.Expr, env *menv) MV {
 		v := m.expr(x.X, env)
 		return v
 	case *ast.IndexExpr:
+		if m.IndexV != nil {
+			if v, ok := m.IndexV(m, x, m.tryExpr(x.X, env), m.tryExpr(x.Index, env)); ok {
+				return v
+			}
+		}
 		if m.Index != nil {
 			if v, ok := m.Index(m, x); ok {
 				return v
@@ -716,7 +796,7 @@ func (m *Mini) call(call *ast.CallExpr, env *menv) []MV {
 	if fn != nil {
 		if fd := m.P.Decl(fn); fd != nil && fd.Body != nil && m.depth < 8 {
 			pk := m.P.PkgOf(fn)
-			sub := &Mini{P: m.P, Info: pk.TypesInfo, Call: m.Call, Sel: m.Sel, Range: m.Range, Index: m.Index, depth: m.depth + 1}
+			sub := &Mini{P: m.P, Info: pk.TypesInfo, Call: m.Call, Sel: m.Sel, Range: m.Range, Index: m.Index, Unroll: m.Unroll, IndexV: m.IndexV, Store: m.Store, Counters: m.Counters, depth: m.depth + 1}
 			bind := map[types.Object]MV{}
 			if fd.Recv != nil && len(fd.Recv.List) > 0 && len(fd.Recv.List[0].Names) > 0 {
 				bind[pk.TypesInfo.Defs[fd.Recv.List[0].Names[0]]] = recv
